@@ -293,7 +293,7 @@ struct Entry {
 
 /// in-order walk; stops at the first file that cannot be read (Err = its path)
 fn rs_inline(t: &Tree, file: &str, depth: usize, out: &mut Vec<Entry>) -> Result<(), String> {
-    if depth > 40 {
+    if depth > 1000 {
         return Err("<depth>".to_string());
     }
     let text = match read_tree(t, file) {
@@ -571,7 +571,27 @@ fn gen_tree(rng: &mut Rng, simple: bool) -> (Tree, Vec<&'static str>, bool) {
     (t, g.tags, g.backslash)
 }
 
+/// a chain of `n` files, each including the next one between two lines of its own
+fn chain_tree(n: usize) -> Tree {
+    (0..n).map(|k| {
+        let path = if k == 0 { "/R/main.ds".to_string() } else { format!("/R/chain/f{}.ds", k) };
+        let next = if k + 1 == n { String::new() } else if k == 0 { format!("!include_files chain/f{}.ds\n", k + 1) } else { format!("!include_files f{}.ds\n", k + 1) };
+        (path, format!("c0 before{}\n{}c1 after{}\n", k, next, k))
+    }).collect()
+}
+
 fn fixed_trees() -> Vec<(Tree, &'static str)> {
+    let s = |x: &str| x.to_string();
+    let f = |v: &[(&str, &str)]| -> Tree { v.iter().map(|(a, b)| (s(a), s(b))).collect() };
+    let mut v = vec![
+        // long (non-circular) include chains
+        (chain_tree(20), "chain-20"), (chain_tree(70), "chain-70"), (chain_tree(140), "chain-140"),
+    ];
+    v.extend(fixed_trees_small());
+    v
+}
+
+fn fixed_trees_small() -> Vec<(Tree, &'static str)> {
     let s = |x: &str| x.to_string();
     let f = |v: &[(&str, &str)]| -> Tree { v.iter().map(|(a, b)| (s(a), s(b))).collect() };
     vec![
